@@ -120,6 +120,28 @@ def near_tie_inject(rng, src, dst, ts, te):
     return sorted(out)
 
 
+def near_window_inject(rng, src, dst, ts, te):
+    """spikes of the other train placed at (half the smallest adjacent ISI of a source spike) * (1 +- eps) from it, eps from
+    1e-13 to 1e-7: spike distance and coincidence window then differ by far more than binary64 rounding (so the comparison is
+    decidable) but by less than single precision or a sloppy reformulation of the window would resolve"""
+    out = set(dst)
+    if len(src) < 2:
+        return sorted(out)
+    for _ in range(rng.randint(1, 2)):
+        k = rng.randrange(len(src))
+        gaps = []
+        if k > 0:
+            gaps.append(src[k] - src[k - 1])
+        if k < len(src) - 1:
+            gaps.append(src[k + 1] - src[k])
+        h = min(gaps) / 2
+        eps = rng.choice([1e-13, 1e-11, 1e-9, 3e-8, 1e-7]) * rng.choice([-1, 1])
+        u = src[k] + rng.choice([-1, 1]) * h * (1 + eps)
+        if ts < u < te and all(abs(u - v) > h / 4 for v in out):
+            out.add(u)
+    return sorted(out)
+
+
 def hostile_pair(rng, tier):
     off = rng.choice([0.0, 0.0, 1234.5, -77.25, 1e6, 1e-3])
     T = rng.choice([1.0, 1e-3, 1e-6, 10.0, 4000.0, 3.7])
@@ -130,8 +152,11 @@ def hostile_pair(rng, tier):
     nmax = 10 if tier == "quick" else 30
     s1 = hostile_train(rng, ts, te, nmax)
     s2 = hostile_train(rng, ts, te, nmax)
-    if rng.random() < 0.4:
+    r = rng.random()
+    if r < 0.4:
         s2 = near_tie_inject(rng, s1, s2, ts, te)
+    elif r < 0.7:
+        s2 = near_window_inject(rng, s1, s2, ts, te)
     return {"ts": ts, "te": te, "step": (te - ts) / 16, "dyadic": False, "trains": [s1, s2]}
 
 
